@@ -39,6 +39,8 @@ def energies(arr, kind):
         E[len(E) // 3] -= 430.0
         E[(2 * len(E)) // 3] += 60.0
         return E
+    if kind == "ramp":       # steady climb: total span far above 500 kJ/mol while most neighbour steps stay below the cap
+        return 110.0 * x + 3.0 * np.cos(0.5 * y + 0.2 * z) + 2.5 * q[:, 0]
     if kind.startswith("two_basin"):  # a high barrier on the middle shell: metastable, second eigenvalue within ~1e-9 of zero
         rr = np.round(np.linalg.norm(arr[:, :3], axis=1), 6)
         shells = np.unique(rr)
@@ -124,7 +126,7 @@ def run_case(case):
                                    "matrix is not defined", case))
                     continue
                 # spectral decomposition (one temperature)
-                if not case.get("decompose") or n < 15 or T != case["Ts"][0] or ek.startswith("offset") or ek in ("int", "deepwell"):
+                if not case.get("decompose") or n < 15 or T != case["Ts"][0] or ek.startswith("offset") or ek in ("int", "deepwell", "ramp"):
                     continue
                 dense_ev = np.linalg.eigvals(Qd)
                 if np.abs(dense_ev.imag).max() > 1e-8 * np.abs(dense_ev).max():
@@ -235,7 +237,7 @@ def cases(tier):
                         i += 1
                         dec = (tier == "thorough") or (i % 4 == 0) or b == "1"       # single-rotation grids are small: always
                         out.append({"b": b, "o": o, "t": t, "cartesian": cart, "f": f,
-                                    "energies": ["smooth", "well", "two_basin70", "two_basin74", "two_basin77", "offset", "offset_pos", "int", "deepwell"], "Ts": [273.15, 310.0, 180.0],
+                                    "energies": ["smooth", "well", "two_basin70", "two_basin74", "two_basin77", "offset", "offset_pos", "int", "deepwell", "ramp"], "Ts": [273.15, 310.0, 180.0],
                                     "decompose": dec,
                                     "ks": [6, 12], "seeds": [0, 1, 2]})
     # a rotation grid with a sliver face (border 8.5e-6): the saved adjacency must still contain that pair
